@@ -756,6 +756,16 @@ class Interp:
             raise PathEnd()
         # 3b. after the loop: the invariant at k = n
         ctx.assume(inv_term(n), "invariant (at exit)")
+        for h in spec.get("exit_hints", lambda v: [])(view(n)):
+            if h[0] == "squares":      # the definition of the (otherwise opaque) array of squares of h[1]
+                from .tarr import square_axiom
+                ctx.assume(square_axiom(h[1]), "definition of the squares array")
+                continue
+            lem, largs = h
+            ctx.oblige(f"{key[0]}#loop{key[1]}:{lem.name}", "lemma-pre", lem.hyps(*largs), {})
+            ctx.assume(lem.stmt(*largs, lem.upto(*largs)), "lemma instance " + lem.name)
+            if lem.assumed:
+                self.stub_log.add("lemma:" + lem.name)
         if isinstance(it, SymEnum) or True:
             # the loop targets keep their last values; they are not used after the loops we cut (checked by the contract author)
             pass
